@@ -10,7 +10,7 @@ class C01(EngineProp):
     id = "C01"
     rule = (
         "cases = generated workflow programs (1-4 event layers, 2-9 steps, num_workers 1..4, fan-out via send_event x1..3, "
-        "retries with 0/positive delays, collect_events re-runs, wait_for_event replays, external sends) run on virtual time with "
+        "retries with 0/positive delays, collect_events re-runs, wait_for_event replays, external sends; one case in four is a step that calls collect_events, continues with an incomplete set and fails under a retry policy, so that stale-snapshot re-runs and retries coincide) run on virtual time with "
         "generated tie-breaks among simultaneously finished workers. Non-trivial = at some tick a step had a non-empty queue while "
         "all its worker slots were occupied (the bound was exercised). Distinct by canonical JSON of the program."
     )
@@ -20,6 +20,30 @@ class C01(EngineProp):
     ]
     gen_kwargs = dict(collect=True, waits=True, retries=True, resume=True)
     expect_result = True  # valid programs that always recover: any other outcome means the engine broke
+
+    def strategy(self, tier):
+        from hypothesis import strategies as st
+
+        from .. import genwf
+
+        @st.composite
+        def collect_then_fail(draw):
+            # a step that calls collect_events, goes on although the set is incomplete, and fails with an immediate (or delayed) retry:
+            # several invocations start from the same buffer snapshot, their completion order is a generated tie-break
+            n = draw(st.integers(3, 6))
+            attempts = draw(st.integers(2, 3))
+            k = draw(st.integers(2, 4))
+            steps = [
+                {"name": "a", "accepts": ["GStart"], "workers": 1, "retry": None, "acts": {"GStart": [["send", "E0", n, None], ["ret", None]]}},
+                {"name": "c", "accepts": ["E0"], "workers": draw(st.integers(2, 3)), "retry": {"n": attempts, "w": draw(st.sampled_from([0, 0, 0, 1]))},
+                 "acts": {"E0": [["collect_cont", ["E0"] * k, draw(st.sampled_from([None, "buf"]))], ["sleep", draw(st.sampled_from([0, 1, 1, 2]))],
+                                 ["fail", draw(st.integers(1, attempts - 1)), "GenError"], ["sleep", draw(st.sampled_from([0, 0, 1]))], ["ret", None]]}},
+                {"name": "fin", "accepts": ["Fin"], "workers": 1, "retry": None, "acts": {"Fin": [["ret", "GStop"]]}},
+            ]
+            ext = [[draw(st.sampled_from([0, 1, 1, 2, 3])), "send", "E0", None, {}] for _ in range(draw(st.integers(0, 3)))]
+            return {"steps": steps, "timeout": None, "ext": ext, "ties": draw(st.lists(st.integers(0, 7), min_size=0, max_size=12)), "family": "collect_then_fail"}
+
+        return st.one_of(genwf.program_strategy(**self.gen_kwargs), genwf.program_strategy(**self.gen_kwargs), genwf.program_strategy(**self.gen_kwargs), collect_then_fail())
 
     def oracle(self, spec, rec, r: CaseResult) -> None:
         nw = {s["name"]: s.get("workers", 4) for s in spec["steps"]}
@@ -83,6 +107,14 @@ class C01(EngineProp):
             r.classes.append("with_collect")
         if rec.resumed:
             r.classes.append("resumed")
+        if spec.get("family") == "collect_then_fail":
+            r.classes.append("collect_then_fail")
+            per = {}
+            for inv in rec.inv:
+                if inv["step"] == "c":
+                    per[(inv["uid"], inv["attempt"])] = per.get((inv["uid"], inv["attempt"]), 0) + 1
+            if any(v > 1 for v in per.values()):
+                r.classes.append("stale_collect_rerun_of_failing_invocation")
         if rec.tie_points:
             r.classes.append("with_ties")
         if rec.outcome["kind"] != "result":
